@@ -270,6 +270,15 @@ impl Domain for NodeDomain {
                                                 bad.push(format!("node{}:{:?}:{}-nodes", i + 1, lvl, v.len()));
                                             }
                                         }
+                                        // all nodes are in one data centre: a majority counting the issuer means n/2 OTHER nodes
+                                        let least = match lvl {
+                                            Consistency::Quorum | Consistency::LocalQuorum | Consistency::EachQuorum => n / 2,
+                                            Consistency::All => n - 1,
+                                            _ => 0,
+                                        };
+                                        if v.len() < least {
+                                            bad.push(format!("node{}:{:?}:{}-nodes-of-{}-required", i + 1, lvl, v.len(), least));
+                                        }
                                     },
                                     Err(ConsistencyError::NotEnoughNodes { .. }) => {
                                         let want = match lvl { Consistency::One => 1, Consistency::Two => 2, Consistency::Three => 3, _ => 0 };
@@ -293,6 +302,52 @@ impl Domain for NodeDomain {
                     Ok(bad) if bad.is_empty() => "real ok".to_string(),
                     Ok(bad) => format!("real BAD {}", bad.join(",")),
                     Err(e) => format!("real start-failed {}", e.split_whitespace().take(4).collect::<Vec<_>>().join("_")),
+                }
+            },
+            "realclock" => {
+                // realclock <n>: n real nodes; a stamp 60 s ahead is registered with node 1's clock; gossip carries node 1's stamps to the
+                // others, whose clocks (the ones `DatacakeNode::clock()` hands to the store) must get past it within a few seconds: the
+                // node has ONE clock, shared by the gossip transport and the users
+                use datacake_node::{ConnectionConfig, DatacakeNodeBuilder};
+                let n = p_u64(t[1]) as usize;
+                let res: Result<Vec<String>, String> = runtime().block_on(async move {
+                    let publics: Vec<SocketAddr> = (0..n).map(|_| crate::rpc::free_addr()).collect();
+                    let mut nodes = Vec::new();
+                    for (i, p) in publics.iter().enumerate() {
+                        let seeds = publics.iter().filter(|a| *a != p).map(|a| a.to_string()).collect::<Vec<_>>();
+                        let cfg = ConnectionConfig::new(*p, *p, seeds);
+                        let node = DatacakeNodeBuilder::<DCAwareSelector>::new((i + 1) as u8, cfg).connect().await.map_err(|e| e.to_string())?;
+                        nodes.push(node);
+                    }
+                    for (i, node) in nodes.iter().enumerate() {
+                        let peers = (1..=n as u8).filter(|id| *id != (i + 1) as u8).collect::<Vec<_>>();
+                        node.wait_for_nodes(&peers, Duration::from_secs(20)).await.map_err(|e| e.to_string())?;
+                    }
+                    let now = nodes[0].clock().get_time().await;
+                    let far = HLCTimestamp::new(now.datacake_timestamp() + Duration::from_secs(60), 0, 250);
+                    nodes[0].clock().register_ts(far).await;
+                    let mut behind: Vec<String> = Vec::new();
+                    for _ in 0..80 {
+                        behind.clear();
+                        for (j, node) in nodes.iter().enumerate() {
+                            if node.clock().get_time().await <= far {
+                                behind.push(format!("node{}", j + 1));
+                            }
+                        }
+                        if behind.is_empty() {
+                            break;
+                        }
+                        tokio::time::sleep(Duration::from_millis(100)).await;
+                    }
+                    for node in nodes {
+                        node.shutdown().await;
+                    }
+                    Ok(behind)
+                });
+                match res {
+                    Ok(b) if b.is_empty() => "realclock ok".to_string(),
+                    Ok(b) => format!("realclock BAD never-passed-the-registered-stamp:{}", b.join(",")),
+                    Err(e) => format!("realclock start-failed {}", e.split_whitespace().take(4).collect::<Vec<_>>().join("_")),
                 }
             },
             // ------------------------------------------------ clock (C11)
@@ -394,6 +449,28 @@ impl Domain for NodeDomain {
                     .chain(others.iter().map(|x| format!("g{}", x)))
                     .collect::<Vec<_>>()
                     .join(";");
+                let log_s = log.iter().map(|(k, inp, after, _)| format!("{}:{}:{}", k, inp, after)).collect::<Vec<_>>().join(",");
+                format!("phase tasks={} log={}", tasks_s, log_s)
+            },
+            "clk-high" => {
+                // clk-high <wall> <ctr> <off> <gets>: one caller registers a remote stamp `off` ms ahead of the wall whose COUNTER is
+                // `ctr` (near u16::MAX: the actor's back-pressure region), then asks for the time `gets` times.  Same output format
+                // as clk-phase.
+                let (wall, ctr, off, gets) = (p_u64(t[1]), p_u64(t[2]) as u16, p_u64(t[3]), p_u64(t[4]));
+                verif_clock::set_wall_ms(Some(wall));
+                let clock = self.clock.as_ref().expect("clock").clone();
+                let out: Vec<(u64, u64)> = runtime().block_on(async move {
+                    let mut out = Vec::new();
+                    let ts = HLCTimestamp::new(Duration::from_millis(wall + off), ctr, 201);
+                    clock.register_ts(ts).await;
+                    out.push((1, ts.as_u64()));
+                    for _ in 0..gets {
+                        out.push((0, clock.get_time().await.as_u64()));
+                    }
+                    out
+                });
+                let log = verif::take_clock_log();
+                let tasks_s = out.iter().map(|(k, x)| format!("{}{}", if *k == 0 { "g" } else { "r" }, x)).collect::<Vec<_>>().join(",");
                 let log_s = log.iter().map(|(k, inp, after, _)| format!("{}:{}:{}", k, inp, after)).collect::<Vec<_>>().join(",");
                 format!("phase tasks={} log={}", tasks_s, log_s)
             },
